@@ -305,9 +305,26 @@ func hasFact(in ssa.Instruction, pred func(f fact) bool) bool {
 }
 
 func hasFactRec(in ssa.Instruction, pred func(f fact) bool, depth int) bool {
-	for _, f := range guardsOfBlock(in.Block()) {
+	gs := guardsOfBlock(in.Block())
+	for _, f := range gs {
 		if pred(f) {
 			return true
+		}
+	}
+	// a fact on a result of a private helper ("ok" of a comma-ok helper) implies what holds at every
+	// return of the helper that is compatible with it
+	for _, f := range gs {
+		if call, rets := helperResultFact(f); call != nil && len(rets) > 0 && depth <= 3 {
+			all := true
+			for _, r := range rets {
+				if !hasFactRec(r, pred, depth+1+4) { // +4: do not climb back to the call sites from inside the helper
+					all = false
+					break
+				}
+			}
+			if all {
+				return true
+			}
 		}
 	}
 	fn := in.Parent()
@@ -315,6 +332,20 @@ func hasFactRec(in ssa.Instruction, pred func(f fact) bool, depth int) bool {
 		return false
 	}
 	sites := curSites.sites[fn]
+	if scanRoot != nil {
+		// inside the unit being scanned only the call sites of that unit count
+		var inRoot []ssa.Instruction
+		for _, s := range sites {
+			for _, g := range unitOf(scanRoot) {
+				if s.Parent() == g {
+					inRoot = append(inRoot, s)
+				}
+			}
+		}
+		if len(inRoot) > 0 {
+			sites = inRoot
+		}
+	}
 	if len(sites) == 0 {
 		return false
 	}
@@ -748,4 +779,98 @@ func timeOrderFact(f fact, mx, my func(ssa.Value) bool) int {
 		return 1
 	}
 	return -1
+}
+
+// helperResultFact: the fact is about a boolean (or nil-comparable) result of a call of a private helper;
+// returns the call and the helper's returns that are compatible with the fact.
+func helperResultFact(f fact) (*ssa.Call, []ssa.Instruction) {
+	c, v := f.Cond, f.Val
+	for i := 0; i < 8; i++ {
+		if u, ok := c.(*ssa.UnOp); ok && u.Op == token.NOT {
+			c, v = u.X, !v
+			continue
+		}
+		break
+	}
+	var call *ssa.Call
+	idx := 0
+	switch x := c.(type) {
+	case *ssa.Call:
+		call = x
+	case *ssa.Extract:
+		call, _ = x.Tuple.(*ssa.Call)
+		idx = x.Index
+	}
+	if call == nil {
+		return nil, nil
+	}
+	h := helperCallee(call)
+	if h == nil {
+		return nil, nil
+	}
+	var rets []ssa.Instruction
+	for _, ret := range findInstrs(h, isReturn) {
+		if h.Recover != nil && ret.Block() == h.Recover {
+			continue
+		}
+		ok := true
+		for _, rv := range retValAt(ret.(*ssa.Return), idx) {
+			for _, leaf := range phiLeaves(rv) {
+				if isConstBool(leaf, !v) {
+					ok = false
+				} else {
+					ok = true
+					break
+				}
+			}
+		}
+		if ok {
+			rets = append(rets, ret)
+		}
+	}
+	return call, rets
+}
+
+// originAt: like origin, and a result of a private helper with several returns is the value of the only
+// return that is compatible with the facts holding at `at` about the other results of the same call
+// (chunk, ok := locate(i); if ok { use chunk }).
+func originAt(v ssa.Value, at ssa.Instruction) ssa.Value {
+	v = origin(v)
+	ex, ok := v.(*ssa.Extract)
+	if !ok || at == nil {
+		return v
+	}
+	call, ok := ex.Tuple.(*ssa.Call)
+	if !ok || helperCallee(call) == nil {
+		return v
+	}
+	var cand []ssa.Instruction
+	first := true
+	for _, f := range guardsOfBlock(at.Block()) {
+		c2, rets := helperResultFact(f)
+		if c2 != call {
+			continue
+		}
+		if first {
+			cand, first = rets, false
+			continue
+		}
+		var keep []ssa.Instruction
+		for _, a := range cand {
+			for _, b := range rets {
+				if a == b {
+					keep = append(keep, a)
+				}
+			}
+		}
+		cand = keep
+	}
+	if first || len(cand) != 1 {
+		return v
+	}
+	rv := retValAt(cand[0].(*ssa.Return), ex.Index)
+	if len(rv) != 1 {
+		return v
+	}
+	return origin(rv[0])
 }
